@@ -488,7 +488,7 @@ def run():
                 'small_seeds')
     if H.thorough:
         for k, seed in enumerate(SEEDS):
-            random_histories(H, buf, seed, 6 if seed[1] > 100 else 60, 40, H.seed * 1000 + k)
+            random_histories(H, buf, seed, 15 if seed[1] > 100 else 150, 40, H.seed * 1000 + k)
     buf.flush(H)
     H.finish()
 
